@@ -11,6 +11,7 @@ RULE = ("nine initialisers x shapes of rank 2-5 with >= 20000 elements and fan_i
         "Conv1d / Conv2d parameters pooled over constructions against U(-1/sqrt(fan_in), 1/sqrt(fan_in)). distinct key = (initialiser, shape, "
         "arguments, dtype); non-trivial = a random initialiser (constant fillers are counted as trivial)")
 RULE += (' Added after the seeded rounds: NumPy-scalar hyper-parameters, calls under no_grad, fan_in = 1 layers, Fortran / strided tensors, small odd-fan shapes pooled over many fills, and independence of every fill from every other fill (storage, in-place update of an earlier fill, identical or correlated consecutive samples).')
+RULE += (" Round 6 / reach monitor: documented parameters by keyword and by position; unknown modes / non-numeric slopes must be refused; Neuron and wide Linear layers; three repetitions per configuration in the quick tier.")
 ASSUMPTIONS = ["6-sigma bands: false-alarm probability < 2e-9 per test; std of the sample std = sigma*sqrt((kurtosis-1)/(4n))",
                "NumPy's global generator is seeded from VERIF_SEED and the case seed"]
 SHARD_TIMEOUT = {"quick": 900, "thorough": 3600}
